@@ -644,6 +644,11 @@ func (this *Writer) processBlock() error {
 			nbTasks = min(nbTasks, this.nbInputBlocks)
 		}
 
+		// The input size is only a hint: never use fewer tasks than buffered blocks
+		if nbBuffered := (this.available + this.blockSize - 1) / this.blockSize; nbTasks < nbBuffered {
+			nbTasks = min(nbBuffered, this.jobs)
+		}
+
 		jobsPerTask, _ = internal.ComputeJobsPerTask(make([]uint, nbTasks), uint(this.jobs), uint(nbTasks))
 	} else {
 		jobsPerTask = []uint{uint(this.jobs)}
